@@ -50,6 +50,9 @@ type c07RaceProg struct {
 	Conns int `json:"conns,omitempty"`
 	// Only: restrict the family's operations to this kind (focused probes), "" = all
 	Only string `json:"only,omitempty"`
+	// Logger: "" = the harness' trace logger on the shared handle; "stock-<level>" = gorm's own logger.New(…) on a capturing
+	// writer; "default-<level>" = the handle names no logger and gets the process-wide logger.Default (c07_stocklog.go)
+	Logger string `json:"logger,omitempty"`
 }
 
 type c07RacePair struct {
@@ -646,6 +649,9 @@ type c07RaceRun struct {
 
 // c07RunRaceProg executes one program, serially (reference) or with G concurrent goroutines, on a fresh database.
 func c07RunRaceProg(p c07RaceProg, serial bool) c07RaceRun {
+	if p.Family == "stocklog" {
+		return c07StockLogRun(p, serial)
+	}
 	setup, rec, sqlDB := OpenRec(&gorm.Config{NowFunc: fixedNowFunc})
 	defer sqlDB.Close()
 	conns := p.Conns
@@ -670,7 +676,7 @@ func c07RunRaceProg(p c07RaceProg, serial bool) c07RaceRun {
 			c07ZooSeed(setup, g)
 		}
 	}
-	if p.Family == "carry" {
+	if p.Family == "carry" || p.Family == "extend" {
 		for g := 0; g < p.G; g++ {
 			c07CarrySeed(setup, g)
 		}
@@ -693,6 +699,9 @@ func c07RunRaceProg(p c07RaceProg, serial bool) c07RaceRun {
 	// the shared handle: a fresh gorm.Open has its own (cold) schema cache, callbacks and statement cache
 	tlog := c07NewTraceLogger()
 	cfg := &gorm.Config{NowFunc: fixedNowFunc, Logger: tlog, PrepareStmt: p.Prepare}
+	if p.Logger != "" { // gorm's own logger (its fields are then visible to the race detector); output is not compared in these families
+		cfg.Logger, _ = c07StockLogger(p.Logger, p.Seed)
+	}
 	shared, err := gorm.Open(sqlite.Dialector{Conn: sqlDB}, cfg)
 	if err != nil {
 		panic(err)
@@ -721,6 +730,12 @@ func c07RunRaceProg(p c07RaceProg, serial bool) c07RaceRun {
 		case "carry": // a handle that carries a random subset of Order / Select / Joins / Preload / Group / … (c07_carry.go)
 			h, _ := c07CarryHandle(shared, p.Seed, conns == 1 && !c07CarryStatic(p.Seed))
 			return h
+		case "extend": // a handle that carries N entries of ONE list kind (c07_extend.go)
+			sp, ok := c07ExtParse(p.Only)
+			if !ok {
+				sp = c07ExtSpecOf(p.Seed)
+			}
+			return c07ExtBuild(shared, sp).Session(&gorm.Session{})
 		default:
 			return shared
 		}
@@ -741,6 +756,8 @@ func c07RunRaceProg(p c07RaceProg, serial bool) c07RaceRun {
 			return w.opCarry(h)
 		case "fresh":
 			return w.opFresh(h)
+		case "extend":
+			return w.opExtend(h)
 		default:
 			return w.opPlain(h)
 		}
@@ -758,7 +775,7 @@ func c07RunRaceProg(p c07RaceProg, serial bool) c07RaceRun {
 		if p.Family == "zoo" {
 			c07ZooSeed(setup, 89)
 		}
-		if p.Family == "carry" {
+		if p.Family == "carry" || p.Family == "extend" {
 			c07CarrySeed(setup, 89)
 		}
 		hw := mk()
@@ -803,7 +820,7 @@ func c07RunRaceProg(p c07RaceProg, serial bool) c07RaceRun {
 		fam = []interface{}{&C07Plain1{}, &C07Plain2{}, &C07Plain3{}, &C07FailHook{}}
 	case "fresh":
 		fam = nil
-	case "carry":
+	case "carry", "extend":
 		fam = []interface{}{&C07Cat{}, &C07ItemTag{}, &C07Item{}}
 		// the parse phase of this family is over before the goroutines start (no parser runs concurrently: F10 / F12 cannot
 		// apply); "cold" = nothing else has been used yet (first use of every spelling / finisher happens concurrently)
@@ -814,7 +831,7 @@ func c07RunRaceProg(p c07RaceProg, serial bool) c07RaceRun {
 	default:
 		fam = []interface{}{&C07Plain1{}, &C07Plain2{}, &C07Plain3{}}
 	}
-	stampede := p.Cold && p.Seed%2 == 0 && p.Family != "carry" && p.Family != "fresh"
+	stampede := p.Cold && p.Seed%2 == 0 && p.Family != "carry" && p.Family != "fresh" && p.Family != "extend"
 	ptrs := make([]map[string]string, p.G)
 	var barrier *c07Barrier
 	if !serial && p.Family == "fail" {
@@ -1038,7 +1055,7 @@ func c07ClassifyPair(p c07RacePair, prog c07RaceProg) string {
 	if p.A == "?" && p.B == "?" {
 		return "unrestorable"
 	}
-	coldRelated := prog.Cold && prog.Family != "unrelated" && prog.Family != "carry" && prog.Family != "fresh"
+	coldRelated := prog.Cold && prog.Family != "unrelated" && prog.Family != "carry" && prog.Family != "fresh" && prog.Family != "extend" && prog.Family != "stocklog"
 	pa, pb := c07IsParser(p.A) || p.A == "?", c07IsParser(p.B) || p.B == "?"
 	if coldRelated && pa && pb && !(p.A == "schema.Schema.parseRelation" && p.B == "schema.Schema.parseRelation") {
 		return "F10"
@@ -1316,7 +1333,7 @@ func c07GenRaceProg(rng *rand.Rand) c07RaceProg {
 	if c07Thorough {
 		gs = []int{2, 4, 8, 16, 32}
 	}
-	fams := []string{"related", "mutual", "mutual", "mutual", "unrelated", "readers", "zoo", "zoo", "zoo", "zoo", "fail", "fail", "fail", "carry", "carry", "carry", "carry", "fresh", "fresh", "fresh"}
+	fams := []string{"related", "mutual", "mutual", "mutual", "unrelated", "readers", "zoo", "zoo", "zoo", "zoo", "fail", "fail", "fail", "carry", "carry", "carry", "carry", "fresh", "fresh", "fresh", "extend", "extend", "extend", "stocklog", "stocklog"}
 	p := c07RaceProg{Seed: rng.Int63n(1 << 40), G: gs[rng.Intn(len(gs))], Cold: rng.Intn(2) == 0, Family: fams[rng.Intn(len(fams))],
 		Prepare: rng.Intn(3) == 0, Ops: 4 + rng.Intn(8)}
 	switch p.Family {
@@ -1340,6 +1357,17 @@ func c07GenRaceProg(rng *rand.Rand) c07RaceProg {
 		p.Cold = rng.Intn(3) != 0
 		if rng.Intn(3) == 0 { // read-only on several connections (the handle may then carry Model(&obj))
 			p.Conns = []int{2, 4, 8}[rng.Intn(3)]
+		}
+	case "extend":
+		p.Handle = "extend"
+		p.Cold = rng.Intn(2) == 0
+		p.Conns = []int{1, 2, 4, 8}[rng.Intn(4)] // read-only family
+	case "stocklog":
+		p.Handle = []string{"db", "db", "session", "ctx"}[rng.Intn(4)]
+		p.Logger = c07StockLoggers[rng.Intn(len(c07StockLoggers))]
+		p.Prepare = false
+		if rng.Intn(3) == 0 {
+			p.Conns = []int{2, 4}[rng.Intn(2)]
 		}
 	case "fail":
 		p.Handle = []string{"db", "db", "session", "ctx", "prepsession", "prepsession", "debug"}[rng.Intn(7)]
@@ -1369,6 +1397,18 @@ func c07GenRaceProg(rng *rand.Rand) c07RaceProg {
 	}
 	if p.G >= 8 && p.Family != "fail" {
 		p.Ops = 3 + rng.Intn(4)
+	}
+	if p.Family == "stocklog" {
+		p.Derive = "" // the family derives per operation itself (quiet / loud logger derivations)
+		p.Ops = 6 + rng.Intn(6)
+	}
+	if p.Family == "extend" && c07HoldModes[p.Derive] && p.Conns > 1 {
+		p.Conns = 1
+	}
+	// gorm's own logger instead of the harness' trace logger on a quarter of the programs of the families whose judgement does not
+	// rest on traced statement shapes alone
+	if p.Logger == "" && rng.Intn(4) == 0 && (p.Family == "zoo" || p.Family == "unrelated" || p.Family == "carry" || p.Family == "extend" || p.Family == "readers") {
+		p.Logger = "stock-warn"
 	}
 	if p.Family == "fresh" && p.G > len(c07FreshGroups) {
 		p.G = len(c07FreshGroups)
@@ -1522,7 +1562,7 @@ func c07RaceParent(r *Result, rng *rand.Rand, tier string) {
 	if o := os.Getenv("C07_ONLY"); o != "" && o != "race" { // development aid
 		return
 	}
-	nprogs, budget := 40, 75*time.Second
+	nprogs, budget := 34, 75*time.Second
 	if tier == "thorough" {
 		c07Thorough = true
 		nprogs, budget = 400, 12*time.Minute
@@ -1609,6 +1649,20 @@ func c07RaceParent(r *Result, rng *rand.Rand, tier string) {
 		c07RaceProg{Seed: rng.Int63n(1<<30) * 2, G: 8, Cold: true, Family: "carry", Handle: "carry", Ops: 8},
 		c07RaceProg{Seed: rng.Int63n(1 << 30), G: 8, Cold: true, Family: "fresh", Handle: "db", Ops: 4},
 		c07RaceProg{Seed: rng.Int63n(1 << 30), G: 4, Cold: true, Family: "fresh", Handle: "session", Ops: 5},
+	)
+	// round 5: a handle carrying 3 / 5 / 6 / 7 entries of one list kind (append leaves spare capacity there), goroutines extending
+	// the SAME list; gorm's stock logger (own instance / process-wide default) with per-goroutine Debug() / LogMode derivations
+	extKind := func() string {
+		sp := c07ExtSpec{Kind: c07ExtKinds[rng.Intn(len(c07ExtKinds))], N: []int{3, 5, 6, 7}[rng.Intn(4)], Split: rng.Intn(3), Model: rng.Intn(3) == 0, Rel: rng.Intn(3) == 0}
+		return sp.String()
+	}
+	progs = append(progs,
+		c07RaceProg{Seed: rng.Int63n(1 << 30), G: 8, Cold: true, Family: "extend", Handle: "extend", Ops: 6, Conns: 4, Only: c07ExtSpec{Kind: "joins", N: []int{3, 5, 6, 7}[rng.Intn(4)], Rel: rng.Intn(2) == 0}.String()},
+		c07RaceProg{Seed: rng.Int63n(1 << 30), G: 8, Cold: false, Family: "extend", Handle: "extend", Ops: 6, Conns: 8, Only: extKind()},
+		c07RaceProg{Seed: rng.Int63n(1 << 30), G: 4, Cold: true, Family: "extend", Handle: "extend", Ops: 8, Conns: 1, Only: extKind(), Logger: "stock-warn"},
+		c07RaceProg{Seed: rng.Int63n(1 << 30), G: 8, Cold: true, Family: "stocklog", Handle: "db", Ops: 8, Logger: "stock-warn"},
+		c07RaceProg{Seed: rng.Int63n(1 << 30), G: 4, Cold: false, Family: "stocklog", Handle: "session", Ops: 10, Logger: "default-warn", Conns: 4},
+		c07RaceProg{Seed: rng.Int63n(1 << 30), G: 8, Cold: false, Family: "stocklog", Handle: "db", Ops: 6, Logger: c07StockLoggers[rng.Intn(len(c07StockLoggers))]},
 	)
 	progs = append(progs, c07FailFixedProgs(rng)...)
 	if dev := os.Getenv("C07_DEV_PROGS"); dev != "" { // development aid: run exactly these programs
